@@ -28,7 +28,6 @@ import (
 	"archive/tar"
 	"context"
 	"fmt"
-	"os"
 	"path/filepath"
 	"sort"
 	"strings"
@@ -59,7 +58,7 @@ var stores = []string{"memory", "db"}
 var modes = []layer.OverlayOpaqueType{layer.OverlayOpaqueAll, layer.OverlayOpaqueTrusted, layer.OverlayOpaqueUser}
 
 func main() {
-	vf.Main("C07", "exploration", ruleText, 40, 1200, body)
+	vf.Main("C07", "exploration", ruleText, 35, 700, body)
 }
 
 func quiet() {
@@ -148,8 +147,10 @@ func buildStack(rng *prng.R, reg *memreg.Registry, repo string, o oc.Opts) (*bui
 	var hs []uint64
 	for i, l := range st.Layers {
 		bo := blob.Opts{
-			ChunkSize:   brng.Pick(64, 512, 4096),
-			Compression: brng.PickS("gzip", "gzip", "zstdchunked", "externaltoc"),
+			// the blob layout is not what this check is about (C02/C03): few chunks per file,
+			// zstd only now and then (its decoder allocates a large window per chunk read)
+			ChunkSize:   brng.Pick(1024, 8192),
+			Compression: brng.PickS("gzip", "gzip", "gzip", "gzip", "zstdchunked", "externaltoc"),
 			Level:       1,
 			Prioritized: l.Prioritized,
 			Workers:     brng.Pick(1, 2),
@@ -218,8 +219,8 @@ type envKey struct {
 }
 
 func l2Stage(r *vf.Run) {
-	nStacks := r.N(25, 800)
-	workers := 6
+	nStacks := r.N(25, 600)
+	workers := 8
 	var wg sync.WaitGroup
 	next := make(chan int, nStacks)
 	for i := 0; i < nStacks; i++ {
@@ -242,9 +243,7 @@ func l2Stage(r *vf.Run) {
 			}()
 			for si := range next {
 				rng := r.RNG(1, uint64(si))
-				tb0 := time.Now()
 				bs, err := buildStack(rng, reg, fmt.Sprintf("l2/s%d", si), oc.Opts{})
-				r.Count("t_build_ms", int(time.Since(tb0).Milliseconds()))
 				if err != nil {
 					r.Violate("serve:build-or-publish-failed", err.Error(), map[string]any{"stack_index": si})
 					continue
@@ -266,7 +265,7 @@ func l2Stage(r *vf.Run) {
 							cfg := config.Config{}
 							// small registry chunks: the blob is fetched piecewise, so the
 							// state file's fetchedSize really moves between 0 and size
-							cfg.BlobConfig.ChunkSize = 512
+							cfg.BlobConfig.ChunkSize = 1024
 							env, err = l2.NewEnv(reg, root, cfg, store, mode, 0)
 							if err != nil {
 								r.Inconclusive("harness: l2.NewEnv: " + err.Error())
@@ -310,18 +309,14 @@ func runL2Case(r *vf.Run, rng *prng.R, env *l2.Env, bs *builtStack, store string
 		for k, v := range ctx {
 			lctx[k] = v
 		}
-		ts0 := time.Now()
 		l, err := serveLayer(env, bs, i)
-		r.Count("t_serve_ms", int(time.Since(ts0).Milliseconds()))
 		if err != nil {
 			r.Violate("serve:resolve-or-verify-failed", fmt.Sprintf("honest registry, genuine blob, layer %d (%s, %s): %v", i, store, bs.blobs[i].Opts, err), lctx)
 			complete = false
 			break
 		}
 		base := uint32(rng.Pick(0, 0, 1, 7, 0xfffe))
-		tc0 := time.Now()
 		view, ok := captureLayer(r, rng.Derive(uint64(i)), l, bs, i, base, mode, bridge, lctx, orders)
-		r.Count("t_capture_ms", int(time.Since(tc0).Milliseconds()))
 		l.Done()
 		if !ok {
 			complete = false
@@ -464,4 +459,3 @@ func sortedKeys(m map[string]bool) []string {
 	return ks
 }
 
-var _ = os.Getenv
